@@ -220,7 +220,11 @@ where
             return Ok(());
         }
 
+        #[cfg(feature = "verif")]
+        crate::verif::sched::yield_point(0);
         let frame = self.pager.write().read_page::<BtreePage>(id)?;
+        #[cfg(feature = "verif")]
+        crate::verif::sched::yield_point(1);
         self.accessor
             .as_mut()
             .ok_or(BtreeError::BtreeUnintialized)?
